@@ -16,7 +16,7 @@ from ..impl import mx, quiet
 
 CFG = {
     "weights": {"eval": 6, "reeval": 1, "set": 3, "clearat": 2, "clear": 0.8, "clearall": 0.5},
-    "compare": ["values", "graph"],
+    "compare": ["values", "graph", "refgraph"],
     "maxdepths": [None],
     "raise_p": 0.02, "none_p": 0.02, "catch_all_p": 0.05, "all_cached": False,
     "rule": "random dependency DAGs (recursion, fan-in through lower cells, uncached cells in between) with "
@@ -159,11 +159,53 @@ def _diff(expect, got):
     return "missing/changed %s extra %s" % (dict(list(miss.items())[:4]), dict(list(extra.items())[:4]))
 
 
+def overwrite_equal(out, stats):
+    """An assigned value is what the cells returns, and its dependents are discarded, also when
+    the new value compares equal to the old one (1 / 1.0 / True, equal containers)."""
+    from ..impl import close_all
+    pairs = [(1, 1.0), (1.0, 1), (1, True), ([1, 2], [1, 2]), ({"a": 1}, {"a": 1}), ((1,), (1,)), ("x", "x")]
+    for recalc in (False, True):
+        for old, new in pairs:
+            close_all()
+            with quiet():
+                m = mx.new_model("E")
+                s = m.new_space("S")
+                s.new_cells("a", formula="def a(x): return 0")
+                s.new_cells("b", formula="def b(x): return (type(a(x)).__name__, id(a(x)))")
+                s.new_cells("other", formula="def other(): return 5")
+                mx.set_recalc(recalc)
+                s.a[1] = old
+                s.other()
+                first = s.b(1)
+                s.a[1] = new
+                got = s.a(1)
+                dep = s.b(1)
+                stats["overwrite_equal_scenarios"] += 1
+                if got is not new:
+                    out.fail("after a[1] = %r (was %r) the cells returns %r, not the assigned object" % (new, old, got),
+                             {"scenario": "overwrite_equal", "old": repr(old), "new": repr(new), "recalc": recalc})
+                elif dep != (type(new).__name__, id(new)):
+                    out.fail("dependent of a[1] kept the value computed from the old input after a[1] = %r (was %r)" % (
+                        new, old), {"scenario": "overwrite_equal", "old": repr(old), "new": repr(new), "recalc": recalc})
+                if dict(s.other) != {(): 5}:
+                    out.fail("an unrelated value was discarded by an input overwrite",
+                             {"scenario": "overwrite_equal", "old": repr(old), "new": repr(new), "recalc": recalc})
+            mx.set_recalc(False)
+    close_all()
+
+
 def run(ctx, out):
-    X.run_family(ctx, out, CFG, oracle, 120, 2000)
+    stats = X.run_family(ctx, out, CFG, oracle, 120, 2000)
+    overwrite_equal(out, stats)
+    out.coverage["input_distribution"]["overwrite_equal_scenarios"] = stats["overwrite_equal_scenarios"]
     out.assumptions.append("the recalculation option is checked by the implementation-only oracle; the Lean "
                            "mechanism model covers the option-off path of set_value_from_key")
 
 
 def replay(ctx, payload, out):
+    import collections
+    h = payload.get("history") or {}
+    if isinstance(h, dict) and h.get("scenario") == "overwrite_equal":
+        overwrite_equal(out, collections.Counter())
+        return
     X.replay_family(ctx, payload, out, CFG, oracle)
